@@ -18,7 +18,7 @@ RULE = (
     "optimum is smaller than the number of rolls of the one-piece-type-per-roll plan (mixing patterns matters)."
 )
 ASSUMPTIONS = [
-    "integer sizes and demands, W <= 8, demands <= 3 (exact DP oracle)",
+    "integer sizes and demands; W <= 8 (10) with demands <= 3 for three piece types, W <= 16 with demands <= 4 for two (exact DP oracle)",
     "an exception is a violation only in cutting-stock mode (valid input by construction); custom-mode column sets are "
     "restricted to sets that cover every demanded piece",
     "termination: SIGALRM (20 s) then JUMP-event fuel",
@@ -131,17 +131,23 @@ def run_instance(r, sizes, W, demands, solvers):
 
 
 def _cs_chunk(params, lo, hi):
-    """index = size_code * 4^m + demand_code"""
-    W, m, solvers = params
+    """index = size_code * D^m + demand_code   (demands 0..D-1, D = 4 unless given)"""
+    W, m, solvers = params[:3]
+    D = params[3] if len(params) > 3 else 4
     r = new_result()
     for idx in range(lo, hi):
-        demands = digits(idx % 4**m, 4, m)
-        sizes = [1 + d for d in digits(idx // 4**m, W, m)]
+        demands = digits(idx % D**m, D, m)
+        sizes = [1 + d for d in digits(idx // D**m, W, m)]
         run_instance(r, sizes, W, demands, solvers)
         if len(r["violations"]) >= 40 or r["counters"]["hangs"] >= 2 or too_many_hangs():
             r["capped"] = True
             break
     return r
+
+
+def _cs_block(params, lo, hi):
+    off = params[4]
+    return _cs_chunk(params[:4], lo + off, hi + off)
 
 
 def custom_cases(W, sizes):
@@ -226,7 +232,21 @@ def jobs(tier, seed):
         for m in (1, 2, 3):
             if m == 3 and W > (6 if tier == "thorough" else 5):
                 continue
-            js.append(Job(f"bp_W{W}_m{m}", W**m * 4**m, _cs_chunk, (W, m, ("solve_bp",)), chunk=max(1, W**m * 4**m // 256), describe="solve_bp: all size tuples in 1..W, demands 0..3"))
+            size = W**m * 4**m
+            if tier == "quick" and m == 3 and W == 5:
+                b = seed % 4
+                lo, hi = size * b // 4, size * (b + 1) // 4
+                js.append(Job(f"bp_W5_m3_block{b}of4", hi - lo, _cs_block, (W, m, ("solve_bp",), 4, lo), chunk=max(1, (hi - lo) // 256), describe="solve_bp: rotating quarter (VERIF_SEED) of the W=5, three-size instances"))
+                continue
+            js.append(Job(f"bp_W{W}_m{m}", size, _cs_chunk, (W, m, ("solve_bp",)), chunk=max(1, size // 256), describe="solve_bp: all size tuples in 1..W, demands 0..3"))
+    # two piece types on wider rolls with demands 0..4: sizes sharing a factor that does not divide the width, etc.
+    for W in range(9, 17):
+        js.append(Job(f"cg_W{W}_m2_demands0to4", W**2 * 25, _cs_chunk, (W, 2, ("solve_cg",), 5), describe="solve_cg: two piece sizes in 1..W, demands 0..4"))
+    if tier == "thorough":
+        for W in range(11, 14):
+            js.append(Job(f"cg_W{W}_m3", W**3 * 64, _cs_chunk, (W, 3, ("solve_cg",)), describe="solve_cg: three piece sizes in 1..W, demands 0..3"))
+        for W in range(7, 13):
+            js.append(Job(f"bp_W{W}_m2_demands0to4", W**2 * 25, _cs_chunk, (W, 2, ("solve_bp",), 5), chunk=max(1, W**2 * 25 // 256), describe="solve_bp: two piece sizes, demands 0..4"))
     cl = _custom_list(tier)
     js.append(Job("custom_columns", len(cl), _custom_chunk, cl, describe="custom mode: covering subsets of the maximal patterns as initial columns, exact enumerating pricing_fn; solve_cg and solve_bp"))
     return js
